@@ -219,7 +219,7 @@ Seg(s, t) ==
                                            !.task[t].pc = IF top = "Sret" THEN "Sexc"
                                                           ELSE IF me.kind = "connect" THEN "K4x" ELSE "done"], t), <<>>)}
            ELSE LET good == s.conn[w] \in {"up", "half"} /\ ~s.fault[w]
-                    tx   == Ev(s, [e |-> "txframe", t |-> 0, c |-> w - 1, ok |-> TRUE, rd |-> q.m,
+                    tx   == Ev(s, [e |-> "txframe", t |-> 0, c |-> w - 1, ok |-> TRUE, alts |-> <<q.m>>,
                                    failed |-> ~good, nw |-> IF good THEN 1 ELSE 0,
                                    to |-> 128, from |-> 176, pid |-> 0, type |-> 44])
                 IN IF good THEN {R(Cont(SetPc(s1, t, "R0l"), t), <<tx>>)}
